@@ -19,6 +19,14 @@ import (
 
 type ctxKey struct{}
 
+type srvKey struct{}
+
+// ServerCallOf finds the simulated call from a handler-side context.
+func ServerCallOf(ctx context.Context) *Call {
+	c, _ := ctx.Value(srvKey{}).(*Call)
+	return c
+}
+
 // Knobs are the per-call transport parameters and fault plan, fixed before
 // the call starts (generated from the tape by the workload).
 type Knobs struct {
@@ -343,7 +351,7 @@ func (n *Net) newExchange(c *Call, req *http.Request) *Exchange {
 	}
 	e.ReqHeader = canonHeader(req.Header)
 	e.live = make(http.Header)
-	e.serverCtx, e.cancelSrv = context.WithCancel(context.Background())
+	e.serverCtx, e.cancelSrv = context.WithCancel(context.WithValue(context.Background(), srvKey{}, c))
 	return e
 }
 
